@@ -261,7 +261,7 @@ def run(ctx):
             else:
                 s = rng.choice(["color:red;", "a:b;", "width: 1px ;", "x", "color:red", "", ";", "a:b; ", "c:d;\n"])
                 ops.append({"op": "style", "s": s, "prepend": rng.random() < 0.5, "html": rng.random() < 0.2})
-        h = {"init": rng.choice(INITIAL), "init_html": rng.random() < 0.2, "style": rng.choice([None, None, "k:v;", "no-semicolon"]), "ops": ops}
+        h = {"init": rng.choice(INITIAL), "init_html": rng.random() < 0.2, "style": rng.choice([None, None, "k:v;", "no-semicolon", " k:v; ", "k:v;\n", "\tk:v;"]), "ops": ops}
         ctx.guard(run_history, ctx, h, witness={"history": h})
         ctx.case(h, nontrivial=nontrivial(h))
         for op in ops:
